@@ -30,7 +30,20 @@ def _run_job(ctx, job):
     import time
     name, checker, cases, ty, shard, defs = job
     t0 = time.time()
-    bad = ctx.coq_cases(name, IMPORTS + defs, checker, cases, ty=ty, shard=shard)
+    for attempt in range(3):
+        nb = len(ctx.broken)
+        bad = ctx.coq_cases(name, IMPORTS + defs, checker, cases, ty=ty, shard=shard)
+        died = (bad is None and len(ctx.broken) == nb + 1 and
+                str(ctx.broken[-1].get('detail', '')).rstrip().endswith('cases file:'))
+        if not died or attempt == 2:
+            break
+        # coqc was killed without output (memory pressure on a loaded machine): not a verdict - run it again
+        del ctx.broken[nb:]
+        c = ctx.cov['correspondence'].get(name)
+        if c:
+            c['cases'] -= len(cases)
+        ctx.cov['oracle']['coqc_retries'] = ctx.cov['oracle'].get('coqc_retries', 0) + 1
+        time.sleep(5)
     ctx.cov.setdefault('timing', {})[name] = round(time.time() - t0, 1)
     if bad:
         ctx.broke('correspondence:' + name, f'{len(bad)} of {len(cases)} cases differ; first: {cases[bad[0]][:1500]}')
@@ -833,6 +846,8 @@ def _group(rp):
     k = rp.get('kind', '?')
     if k in ('der_deep_nesting', 'der_recursion'):
         return 'der_deep_nesting'
+    if k == 'line_endings':
+        return 'line_endings ' + str(rp.get('rewrite'))
     if k == 'security_key':
         return 'security_key ' + str(rp.get('alg'))
     if k == 'container_writer':
@@ -880,7 +895,7 @@ class Collector:
         ctx = self.ctx
         ctx.failing_input = self.real
         summary = {}
-        order = sorted(self.groups, key=lambda g: (g.startswith('der_deep') or g.startswith('der_recursion'), g))
+        order = sorted(self.groups, key=lambda g: (g.startswith('der_deep') or g.startswith('der_recursion'), 'CR only' in g, g))
         def is_known(rp):
             return any(k.get('status') == 'known' and core.finding_matches(k, dict(rp, property=ctx.pid)) for k in ctx.known)
         for g in order:
@@ -1036,6 +1051,14 @@ def replay(rp):
             bad = [f for f in ('alg', 'fields', 'comment', 'pub') if got[f] != want[f]]
             print('fields that differ after import -> export:', bad, got['fields'] if bad else '')
             return 1 if bad else 0
+        except Exception as e:                 # noqa
+            print('still fails:', type(e).__name__, e)
+            return 1
+    if kind == 'line_endings' and rp.get('data') and rp.get('format') != 'list':
+        try:
+            (asyncssh.import_private_key if rp.get('which') == 'private' else asyncssh.import_public_key)(bytes.fromhex(rp['data']))
+            print('imports')
+            return 0
         except Exception as e:                 # noqa
             print('still fails:', type(e).__name__, e)
             return 1
